@@ -474,6 +474,9 @@ func runC08(tier string, seed uint64) int {
 			f.PodsOnly, f.AllNsObjs, f.NANPs, f.BANP = true, true, r.between(2, 4), r.chance(1, 2)
 			w = genWorld(r, f)
 		}
+		if i%6 == 2 {
+			w.Docs = exported(r, w.Docs) // dumped from a cluster
+		}
 		if i%15 == 7 && len(w.Workloads) > 0 {
 			// a world the analysis cannot answer: a rule that allows everything next to a rule whose named port
 			// meets an address. Every command fails; it must fail in every order of rules, files and map slots.
